@@ -1,6 +1,7 @@
 package props
 
 import (
+	"os"
 	"encoding/base64"
 	"encoding/json"
 	"fmt"
@@ -98,6 +99,22 @@ func c15Run(w *kernel.Worker, j *c15Job, rep *kernel.Report) (*c15Result, error)
 	hist := fmt.Sprintf("h%d", n)
 	ia, ib := fmt.Sprintf("c15a%d", n), fmt.Sprintf("c15b%d", n)
 	body, ids := c15Build(j, hist, ia, ib)
+	storeFull := len(j.Kinds) > 0 && j.Kinds[0] == "store-full"
+	if storeFull {
+		// store-level failure: 1000 open segment stores exist, so the batch is rejected after statuses were assigned
+		var sb strings.Builder
+		for i := 0; i < 1001; i++ {
+			sb.WriteString(fmt.Sprintf(`{"index":{"_index":"c15fill%d-%d"}}`+"\n"+`{"timestamp":%d,"f":1}`+"\n", n, i, T0))
+		}
+		if err := w.Call("bulk", map[string]interface{}{"org": 0, "body": sb.String()}, nil); err != nil {
+			if _, ok := err.(*kernel.Died); !ok {
+				return nil, err
+			}
+		}
+		j2 := &c15Job{Kinds: []string{"index-a", "index-b"}, Newline: true}
+		body, ids = c15Build(j2, hist, ia, ib)
+		j = &c15Job{N: j.N, Kinds: j2.Kinds, Newline: true}
+	}
 	died := func(err error) (*c15Result, error) {
 		if d, ok := err.(*kernel.Died); ok {
 			if d.Timeout {
@@ -130,6 +147,9 @@ func c15Run(w *kernel.Worker, j *c15Job, rep *kernel.Report) (*c15Result, error)
 	defer func() {
 		_ = delIndex(w, 0, ia)
 		_ = delIndex(w, 0, ib)
+		if storeFull {
+			_ = delIndex(w, 0, fmt.Sprintf("c15fill%d-*", n))
+		}
 	}()
 	if r.Err != "" || len(r.Errors) > 0 {
 		return &c15Result{"C15/query-error", r.Err + strings.Join(r.Errors, ";")}, nil
@@ -157,6 +177,9 @@ func c15Run(w *kernel.Worker, j *c15Job, rep *kernel.Report) (*c15Result, error)
 		kind := j.Kinds[k]
 		cnt := stored[ids[k]]
 		if created && cnt != 1 {
+			if storeFull {
+				kind = "store-full"
+			}
 			return &c15Result{"C15/acked-not-stored/" + kind, fmt.Sprintf("item %d (%s) status %d but document found %d times; kinds %v", k, kind, st, cnt, j.Kinds)}, nil
 		}
 		if !created && cnt != 0 {
@@ -220,6 +243,12 @@ func c15Enumerate(tier string, emit func(c15Job)) {
 		depth = 4
 	}
 	var n int64
+	// The store-level-failure history (1000 open segment stores so that getSegStore rejects the batch) needs
+	// > 24 GB of address space for the per-store buffers and dies of memory exhaustion first; it is kept in the
+	// code (kind "store-full") but not enumerated. See DESIGN.md C15.
+	if os.Getenv("VERIF_C15_STOREFULL") == "1" {
+		emit(c15Job{N: -1, Kinds: []string{"store-full"}, Newline: true})
+	}
 	nk := len(c15Alphabet)
 	for d := 1; d <= depth; d++ {
 		idx := make([]int, d)
